@@ -10,6 +10,10 @@ CHECKS = {
          "All operation sequences up to length 6 (quick) / 7 (thorough) over a 9-operation alphabet are run on the real har.Logger and compared step by step with a list model; 2-3 thread scenarios on colliding ids are run under the gosim scheduler with every interleaving of the logger's lock operations enumerated and each recorded history checked for linearizability against the same model.",
          "Scheduling points are synchronisation operations only (lock/atomic/channel); ids {a,b,c}; bodiless request/response shapes.",
          "exhaustive operation-sequence enumeration + stateless schedule enumeration (gosim) with linearizability oracle", "gosim", "DESIGN.md §7 C17"),
+ "C02": ("model_checking",
+         "The real proxy.go/context.go run over simnet under the gosim scheduler with recording modifiers: plain mode with all modifier-behaviour sequences (pass, request error, response error, skip round trip, round-trip error, hijack in request/response modifier) up to length 2/3, blind CONNECT, MITM with plaintext and with TLS inside, optional second concurrent connection; every schedule with <=1 (quick) / <=2 (thorough) deviations; oracle from the recorded calls: exactly-once request/response modifier per exchange on the same request and context, unique context ids, session per connection, Warning surfacing, skip-round-trip, no context left retrievable (hook VerifLiveContexts), no proxy I/O after a hijack and prompt close.",
+         "Round trips go through a synchronous harness RoundTripper; TLS is crypto/tls unmodified on simnet; deviation-bounded.",
+         "stateless schedule enumeration of the implementation (gosim) with deviation bounding", "gosim", "DESIGN.md §7 C02"),
  "C07": ("model_checking",
          "The real proxy.go (sync/chan/select/go/time rewritten into scheduler operations) serves a simnet listener; 1..3 connections are parked at each of the six progress points (all sorted placements), Close() runs in its own thread, the parked exchanges are released in every order, late connections race with or follow Close(); every schedule with <=2 (quick) / <=3 (thorough) deviations is executed and each clause of the statement is evaluated on the recorded event order (response completeness and Connection: close marking, no modifier after Close returned, connections closed and handlers finished at the instant Close returns, late connections unserved, no panic/deadlock).",
          "Round trips go through a synchronous harness RoundTripper; simnet is the TCP model; deviation-bounded, not all interleavings.",
